@@ -463,8 +463,8 @@ func (h *history) judge(e *hk.Env, st *stats) {
 			bad(fmt.Sprintf("GetID %q already given to request %d", s.o.id, prev))
 		}
 		ids[s.o.id] = s.k
-		if len(s.o.id) < 10 || s.o.id[8] != '-' {
-			bad(fmt.Sprintf("GetID %q is not prefix-counter", s.o.id))
+		if s.o.id == "" {
+			bad("GetID is empty")
 		}
 	}
 	line := h.line()
@@ -906,8 +906,8 @@ func run(e *hk.Env) error {
 	}
 	e.Stats["concurrent_histories_8_goroutines"] = nConc
 
-	// one long history on ONE Mux, ids only: the i-th request must get prefix + base36(i), no repeats (a counter that
-	// wraps or is truncated before rendering shows here)
+	// one long history on ONE Mux, ids only: no id may repeat (a counter that wraps or is truncated before rendering shows
+	// here).  How the id looks is the implementation's business; that it is prefix + base36(i) is only counted.
 	{
 		n := 60000
 		if e.Thorough() {
@@ -919,22 +919,25 @@ func run(e *hk.Env) error {
 		seen := make(map[string]int, n)
 		req := &http.Request{Method: "GET", URL: &url.URL{Path: "/"}, RequestURI: "/", Header: http.Header{}}
 		rec := httptest.NewRecorder()
-		bad := 0
+		bad, otherLayout := 0, 0
 		for i := 1; i <= n && bad < 3; i++ {
 			got = ""
 			mux.ServeHTTP(rec, req)
-			want := strconv.FormatUint(uint64(i), 36)
 			if j, dup := seen[got]; dup {
 				bad++
 				e.Case("VIOL", fmt.Sprintf("GetID_%q_of_request_%d_on_one_Mux_was_already_given_to_request_%d", got, i, j))
-			} else if len(got) < 10 || got[9:] != want {
+			} else if got == "" {
 				bad++
-				e.Case("VIOL", fmt.Sprintf("GetID_%q_of_request_%d_on_one_Mux:_counter_part_is_not_base36(%d)=%q", got, i, i, want))
+				e.Case("VIOL", fmt.Sprintf("GetID_of_request_%d_on_one_Mux_is_empty", i))
+			}
+			if len(got) < 10 || got[9:] != strconv.FormatUint(uint64(i), 36) {
+				otherLayout++
 			}
 			seen[got] = i
 		}
 		st.idOnlyRequests = n
 		st.violations += bad
+		e.Stats["id_only_history_ids_not_prefix_plus_base36_ticket_(informational)"] = otherLayout
 	}
 	e.Stats["id_only_history_requests_on_one_mux"] = st.idOnlyRequests
 	e.Stats["handler_panic_propagation_differs_from_relay_kind_(informational)"] = st.escapeDiffers
